@@ -123,25 +123,26 @@ pub fn partial_hard_shrink(dim: usize, row: usize, lambda: f64) -> AffTree<2> {
         dim
     );
 
+    // x_{row} <= lambda
     let mut aff = AffFunc::unit(dim, row);
-    aff.mat[[0, row]] = -1.0;
-    aff.bias[0] = -lambda;
+    aff.bias[0] = lambda;
     let mut dd = AffTree::from_aff(aff);
 
+    // -x_{row} <= lambda
     let mut aff = AffFunc::unit(dim, row);
-    aff.mat[[0, row]] = 1.0;
-    aff.bias[0] = -lambda;
+    aff.mat[[0, row]] = -1.0;
+    aff.bias[0] = lambda;
 
     let affine_max = AffFunc::identity(dim);
 
-    let n = dd.add_child_node(0, 0, aff).unwrap();
-    dd.add_child_node(0, 1, affine_max).unwrap();
+    dd.add_child_node(0, 0, affine_max).unwrap();
+    let n = dd.add_child_node(0, 1, aff).unwrap();
 
     let affine_zero = AffFunc::zero_idx(dim, row);
     let affine_min = AffFunc::identity(dim);
 
-    dd.add_child_node(n, 0, affine_zero).unwrap();
-    dd.add_child_node(n, 1, affine_min).unwrap();
+    dd.add_child_node(n, 0, affine_min).unwrap();
+    dd.add_child_node(n, 1, affine_zero).unwrap();
 
     dd
 }
